@@ -19,7 +19,7 @@ RULE = ("one case = one history of saves (categories Op/OpX/Op_Y/O/Op_ or, every
         "iter_recording_ids or find_matching_recording_ids with skip_incomplete on/off); deterministic streams: prefix "
         "categories x key prefixes, layout-literal categories x key prefixes x (plain / filter / window), flag values x "
         "lookups, caller's flag filters x default lookup, day folders x limits x merge schedules, histories with saves that FAIL "
-        "part-way on S3 (the bucket refuses the first or the second put of a save: of a new recording, of a stored one, of "
+        "part-way on S3 (the bucket refuses the first or the second put of a save, alone or with everything after it: of a new recording, of a stored one, of "
         "one that is saved successfully on a retry; such a save stores nothing on the other cassettes) x key prefixes x "
         "lookups + a random stream of such histories; non-trivial = the lookup "
         "selects a non-empty proper subset of the stored recordings; distinct = distinct (history, lookup)")
@@ -243,14 +243,14 @@ FAILED_BASE = 4500     # ordinals of recordings none of whose saves succeeded (h
 
 def failing_histories():
     """Saves that fail part-way on S3 (the bucket refuses the n-th mutation of the save: 0 = the first put, 1 = the second
-    one; save_recording raises, TapeRecorder would log and carry on): a recording whose save failed was not saved, so no
+    one - and everything after it, as when the process dies, or with "only" just that one request; save_recording raises, TapeRecorder would log and carry on): a recording whose save failed was not saved, so no
     lookup may hand out its id; a re-save that failed leaves the earlier version; a retry that succeeds counts.
     Returns [(history of successful saves, failing saves)]; "after": the failing save happens before hist[after]."""
     u = ["%032x" % (0xfa10 + i) for i in range(12)]
     ta = [["tenant", pv.s("a")]]
     tb = [["tenant", pv.s("b")]]
     out = []
-    for crash in (1, 0):
+    for crash, only in ((1, False), (0, False), (0, True)):
         h = [dict(cat="Op", uuid=u[0], ct=1 * H, t=1 * H, meta=ta),
              dict(cat="Op", uuid=u[1], ct=2 * H, t=2 * H, meta=tb),
              dict(cat="OpX", uuid=u[2], ct=3 * H, t=3 * H, meta=ta),
@@ -261,6 +261,8 @@ def failing_histories():
                   dict(cat="Op", uuid=u[5], ct=DAY + 4 * H, t=DAY + 4 * H, meta=ta, crash=crash, after=3),   # retried later
                   dict(cat="OpX", uuid=u[6], ct=DAY + 8 * H, t=DAY + 8 * H, meta=tb, crash=crash, after=5),  # the last call
                   dict(cat="Op", uuid=u[7], ct=DAY + 9 * H, t=DAY + 9 * H, meta=[], crash=1 - crash, after=5)]
+        if only:      # only that one put is refused (size cap, throttling): whatever the save does afterwards gets through
+            failed = [dict(f, only=True) for f in failed]
         out.append((h, failed))
     # nothing was ever saved successfully
     out.append(([], [dict(cat="Op", uuid=u[8], ct=H, t=H, meta=ta, crash=1, after=0),
@@ -271,7 +273,7 @@ def failing_histories():
 def failing_targeted():
     out = []
     for n, (h, failed) in enumerate(failing_histories()):
-        for kp in (KPS if n == 0 else ["", "p/q"]):
+        for kp in (KPS if n == 0 else ["", "p/q"] if n != 2 else ["p", "metadata"]):
             for cat in ("Op", "OpX"):
                 for f, lim, skip, win in ((None, None, None, False), (ta_filter(), None, None, False), (None, 2, None, False),
                                           (None, None, True, False), (None, None, None, True), (ta_filter(), 50, False, True)):
@@ -304,6 +306,9 @@ def rand_failed(rng, hist, pool):
             first = min(i for i, x in enumerate(hist) if x["uuid"] == e["uuid"])
             out.append(dict(cat=e["cat"], uuid=e["uuid"], ct=e["ct"], t=e["ct"], meta=rand_meta(rng), crash=rng.choice([0, 1, 1]),
                             after=first))
+    for f in out:
+        if rng.random() < 0.4:
+            f["only"] = True
     out.sort(key=lambda f: f["after"])
     return out
 
@@ -555,7 +560,7 @@ def features(case):
     f.add("stored=%d" % min(len(stored(case["hist"])), 10))
     st_ = {e["uuid"] for e in case["hist"]}
     for fl in case.get("failed") or []:
-        f.add("failed-s3-save:refused-mutation=%d" % fl["crash"])
+        f.add("failed-s3-save:refused-mutation=%d%s" % (fl["crash"], "-only" if fl.get("only") else "-and-all-later"))
         f.add("failed-s3-save:" + ("of-a-recording-that-is-never-saved" if fl["uuid"] not in st_ else
                                    "re-save-or-first-attempt-of-a-saved-recording"))
     st = stored(case["hist"])
